@@ -82,7 +82,7 @@ Proof.
   assert (FailsAt (parse_dot_ops re) i i) as Hdots.
   { unfold parse_dot_ops. apply binops_failsat. unfold parse_dot_op. apply alt_failsat; [discriminate|].
     repeat (apply Forall_cons || apply Forall_nil).
-    - unfold parse_method_call. apply FailsAt_memo_ok_only. apply FailsAt_bind_l. apply parse_identifier_failsat. sub_nostart H.
+    - unfold parse_method_call. apply FailsAt_memo. apply FailsAt_bind_l. apply parse_identifier_failsat. sub_nostart H.
     - unfold parse_array_access. apply FailsAt_bind_l. apply parse_identifier_failsat. sub_nostart H.
     - apply parse_identifier_failsat. sub_nostart H. }
   repeat (apply Forall_cons || apply Forall_nil).
@@ -189,20 +189,20 @@ Section Level.
     destruct H as [t Ht|t o c Hae Ht Ho Hc|t o ts ns c Ht Ho Ha Hc|t o ts n c Ht Ho Hn Hc].
     - (* identifier *)
       cbn [app]. apply alt_go_skip.
-      { unfold parse_method_call. apply Fails_memo_ok_only. eapply Fails_bind_r; [apply parse_identifier_ok; exact Ht|].
+      { unfold parse_method_call. apply Fails_memo. eapply Fails_bind_r; [apply parse_identifier_ok; exact Ht|].
         apply Fails_bind_l. eapply FailsAt_Fails. apply exp_token_nostart; [discriminate|]. sub_nostart Hf. }
       intro b1. apply alt_go_skip.
       { unfold parse_array_access. eapply Fails_bind_r; [apply parse_identifier_ok; exact Ht|].
         apply Fails_bind_l. eapply FailsAt_Fails. apply exp_token_nostart; [discriminate|]. sub_nostart Hf. }
       intro b2. apply alt_go_here. apply parse_identifier_ok. exact Ht.
     - (* call without arguments *)
-      cbn [app]. apply alt_go_here. unfold parse_method_call. apply Parses_memo_ok_only.
+      cbn [app]. apply alt_go_here. unfold parse_method_call. apply Parses_memo.
       eapply Parses_bind; [apply parse_identifier_ok; exact Ht|]. cbv beta.
       eapply Parses_bind; [apply exp_token_ok; exact Ho|]. cbv beta.
       eapply Parses_bind; [apply sep_list_empty; apply (Hre0 Hae); eapply nostart_ty; [exact Hc|reflexivity]|]. cbv beta.
       eapply Parses_bind; [apply exp_token_ok; exact Hc|]. cbv beta. apply Parses_ret.
     - (* call *)
-      cbn [app]. rewrite <- app_assoc. cbn [app]. apply alt_go_here. unfold parse_method_call. apply Parses_memo_ok_only.
+      cbn [app]. rewrite <- app_assoc. cbn [app]. apply alt_go_here. unfold parse_method_call. apply Parses_memo.
       eapply Parses_bind; [apply parse_identifier_ok; exact Ht|]. cbv beta.
       eapply Parses_bind; [apply exp_token_ok; exact Ho|]. cbv beta.
       eapply Parses_bind.
@@ -212,7 +212,7 @@ Section Level.
       cbv beta. eapply Parses_bind; [apply exp_token_ok; exact Hc|]. cbv beta. apply Parses_ret.
     - (* index *)
       cbn [app]. rewrite <- app_assoc. cbn [app]. apply alt_go_skip.
-      { unfold parse_method_call. apply Fails_memo_ok_only. eapply Fails_bind_r; [apply parse_identifier_ok; exact Ht|].
+      { unfold parse_method_call. apply Fails_memo. eapply Fails_bind_r; [apply parse_identifier_ok; exact Ht|].
         apply Fails_bind_l. eapply FailsAt_Fails. apply exp_token_nostart; [discriminate|].
         eapply nostart_ty; [exact Ho|reflexivity]. }
       intro b1. apply alt_go_here. unfold parse_array_access.
@@ -258,7 +258,7 @@ Section Level.
     assert (Fails (parse_dot_ops re) (o :: r)) as Hnd.
     { eapply FailsAt_Fails. unfold parse_dot_ops. apply binops_failsat. unfold parse_dot_op. apply alt_failsat; [discriminate|].
       repeat (apply Forall_cons || apply Forall_nil).
-      - unfold parse_method_call. apply FailsAt_memo_ok_only. apply FailsAt_bind_l. apply parse_identifier_failsat. exact Hni.
+      - unfold parse_method_call. apply FailsAt_memo. apply FailsAt_bind_l. apply parse_identifier_failsat. exact Hni.
       - unfold parse_array_access. apply FailsAt_bind_l. apply parse_identifier_failsat. exact Hni.
       - apply parse_identifier_failsat. exact Hni. }
     apply alt_go_skip.
@@ -324,7 +324,7 @@ Section Level.
       { eapply FailsAt_Fails. unfold parse_dot_ops. apply binops_failsat. unfold parse_dot_op. apply alt_failsat; [discriminate|].
         assert (nostart ident_types (t :: rest)) as Hni by (eapply (nostart_cons _ literal_types); [exact Ht|reflexivity]).
         repeat (apply Forall_cons || apply Forall_nil).
-        - unfold parse_method_call. apply FailsAt_memo_ok_only. apply FailsAt_bind_l. apply parse_identifier_failsat. exact Hni.
+        - unfold parse_method_call. apply FailsAt_memo. apply FailsAt_bind_l. apply parse_identifier_failsat. exact Hni.
         - unfold parse_array_access. apply FailsAt_bind_l. apply parse_identifier_failsat. exact Hni.
         - apply parse_identifier_failsat. exact Hni. }
       apply alt_go_skip.
